@@ -75,7 +75,7 @@ HARNESSES = [
      "functions": ["DepthMinMax::from_depths_or_max", "DepthMin::from_min_or_unbounded", "DepthBehavior::bounded"],
      "bounds": "all 64-bit pairs", "stubs": [], "replay": "depth_walks"},
     # --- negation verdict step ---
-    {"name": "walk::glob::verif_kani::negation_residue_step", "props": ["C03"], "tier": "quick",
+    {"name": "walk::glob::verif_kani::negation_residue_step", "props": ["C03", "C13"], "tier": "quick",
      "functions": ["walk::glob::FilterAny::residue", "walk::glob::FilterAnyProgram::residue"],
      "bounds": "all 4 program shapes x all regex verdicts; one concrete root-relative path; unwind 6",
      "stubs": ["regex::Regex::is_match"], "replay": "negation_walks"},
@@ -164,6 +164,11 @@ HARNESSES += [
     _var("sound_opened_upper_bound", ["C10"], "quick", ["BoundedVariantRange::opened_upper_bound"],
          "all shapes, operands below 2^62", "range_soundness"),
 ]
+HARNESSES.append(_var("sound_termination_table_invariant_depth", ["C10"], "quick",
+                      ["<Termination as Conjunction>::conjunction", "<SeparatedTerm<T> as Conjunction<SeparatedTerm<U>>>::conjunction",
+                       "<SeparatedTerm<TokenVariance<Depth>> as Finalize>::finalize"],
+                      "all 12 well-formed pairs of the non-coalescent terminations (Open, First, Last, Closed) x all invariant separator counts below 2^31; coalescent terms (tree wildcards) and variant counts are outside this lemma",
+                      "range_soundness"))
 for _n, _t in [("exactly_0", "quick"), ("exactly_1", "quick"), ("exactly_3", "quick"), ("unbounded_k0", "quick"),
                ("unbounded_k7", "thorough"), ("lower2_k2", "quick"), ("lower2_k7", "thorough"),
                ("upper3_k0", "quick"), ("upper3_k3", "quick"), ("upper1_k1", "thorough"),
@@ -221,9 +226,10 @@ def closure_specs(tier):
         if tier != "thorough" and r["tier"] != "quick":
             continue
         # quick tier: one shallow and one deep entry per family
-        if tier != "thorough" and r["wd_depth"] not in (1, 2):
+        if tier != "thorough" and (r["wd_depth"] not in (1, 2) or (r["family"] == "dot_k3" and r["wd_depth"] != 1)):
             continue
-        replay = "closure_rooted" if r["rooted"] else ("closure_parent" if r["prefix"].startswith("..") else "closure")
+        replay = "closure_rooted" if r["rooted"] else ("closure_parent" if r["prefix"].startswith("..") else
+                                                       ("closure_dot" if r["prefix"].startswith("./") else "closure"))
         out.append({"name": "walk::glob::verif_kani::closure::step_" + r["name"], "props": ["C02", "C13"], "tier": "quick",
                     "functions": ["GlobWalker::walk_with_behavior (filter_map_tree closure)", "walk::glob::root_relative_paths",
                                   "WalkTree::with_pivot_and_behavior", "WalkTree::next", "WalkTree::cancel_walk_tree",
